@@ -160,6 +160,20 @@ CLAIMED["C12"] = (
     "without a leading '+'); usize/isize assumed 64-bit.",
     "DESIGN §5 C12")
 
+CLAIMED["C20"] = (
+    "TLA+ specs (Concat.tla: two-phase length/fill machine of the concat/join macros refines std concat/join with "
+    "in-bounds and UTF-8 invariants; CStr.tla: first-nul scan and pointer walk refine std's constructors) "
+    "model-checked by TLC; TLC-emitted argument-list descriptors turned into const programs using the real macros, "
+    "compiled and run; CStr vectors replayed into konst::ffi::cstr",
+    "Exhaustive within bounds: every list of 0..3 (thorough 4) pieces over {\"\", a, a 2+3-byte pair, a 4-byte char} "
+    "as str and as char elements, separators {\"\", \",\", a 6-byte string, a 2-byte char} in str and char form, "
+    "through str_concat!, str_join!, string::from_iter!, slice_concat! expanded in const items (935 programs per "
+    "quick run, evaluated by rustc's const evaluator); all byte strings of <=5 (thorough 7) bytes over "
+    "{0,'a',0xFF,0xC3,0xB1} through from_bytes_until_nul / from_bytes_with_nul / to_bytes / to_bytes_with_nul / "
+    "to_str compared with the specification and std.",
+    "Trusted: TLC, the program generator (one line per case; a case that does not compile is reported), rustc.",
+    "DESIGN §5 C20")
+
 NOT_YET = {}
 
 def main():
